@@ -43,15 +43,29 @@ using std::vector;
 // ---------------------------------------------------------------- Event pool (operator new interposer)
 namespace pool {
 static const int K = 16;
-static const size_t SLOT = 64;
+static const size_t SLOT = 128;
 static char mem[K * SLOT] __attribute__((aligned(64)));
+static bool first_in_call = false;   // fallback when the Event classes are not nameable
 static bool used[K];
 static bool on = false;       // set around Register*Timeout calls only
 static int want = -1;         // slot the next Event allocation must take
 static bool poisoned_init = false;
 
+// sizeof the (private, nested) Event subclasses if they are still nameable; otherwise the Event is taken
+// to be the first allocation (<= SLOT bytes) made inside a Register*Timeout call.
+template <typename T> struct has_event_classes {
+  template <typename U> static char test(typename U::RepeatingEvent *, typename U::SingleEvent *);
+  template <typename U> static long test(...);
+  static const bool value = sizeof(test<T>(0, 0)) == sizeof(char);
+};
+template <bool B> struct ev_size { template <class T> static bool is(size_t sz) { return first_in_call && sz <= SLOT; } };
+template <> struct ev_size<true> {
+  template <class T> static bool is(size_t sz) {
+    return sz == sizeof(typename T::RepeatingEvent) || sz == sizeof(typename T::SingleEvent);
+  }
+};
 static bool is_event_size(size_t sz) {
-  return sz == sizeof(TimeoutManager::RepeatingEvent) || sz == sizeof(TimeoutManager::SingleEvent);
+  return ev_size<has_event_classes<TimeoutManager>::value>::is<TimeoutManager>(sz);
 }
 static int slot_of(const void *p) {
   const char *c = static_cast<const char*>(p);
@@ -85,6 +99,7 @@ void *operator new(size_t sz) {
   if (pool::on && pool::want >= 0 && pool::is_event_size(sz)) {
     int s = pool::want;
     pool::want = -1;
+    pool::first_in_call = false;
     pool::used[s] = true;
     void *p = pool::ptr_of(s);
     ASAN_UNPOISON_MEMORY_REGION(p, pool::SLOT);
@@ -198,12 +213,12 @@ static void do_register(bool rep, uint64_t iv, uint64_t h) {
   ola::thread::timeout_id id;
   if (rep) {
     RepCb *cb = new RepCb(ser);
-    pool::want = slot; pool::on = true;
+    pool::want = slot; pool::first_in_call = true; pool::on = true;
     id = g_tm->RegisterRepeatingTimeout(TimeInterval(static_cast<int64_t>(iv)), cb);
     pool::on = false;
   } else {
     OneCb *cb = new OneCb(ser);
-    pool::want = slot; pool::on = true;
+    pool::want = slot; pool::first_in_call = true; pool::on = true;
     id = g_tm->RegisterSingleTimeout(TimeInterval(static_cast<int64_t>(iv)), cb);
     pool::on = false;
   }
@@ -233,29 +248,45 @@ static uint64_t ts_us(const TimeStamp &t) {
   return static_cast<uint64_t>(t.Seconds()) * 1000000ULL + t.MicroSeconds();
 }
 
-struct QAccess : public TimeoutManager::event_queue_t {
-  static const std::vector<TimeoutManager::Event*> &vec(const TimeoutManager::event_queue_t &q) {
-    return q.*(&QAccess::c);
+#define C16T_HAS_MEMBER(name) \
+  template <typename T> struct t_has_##name { \
+    template <typename U> static char test(decltype(&U::name)); \
+    template <typename U> static long test(...); \
+    static const bool value = sizeof(test<T>(0)) == sizeof(char); };
+C16T_HAS_MEMBER(m_events)
+C16T_HAS_MEMBER(m_removed_timeouts)
+
+// optional internal observations (heap layout of m_events, content of m_removed_timeouts)
+template <bool B> struct tm_int { template <class TM> static string get(TM *) { return ""; } };
+template <> struct tm_int<true> {
+  template <class TM> struct QAccess : public TM::event_queue_t {
+    static const typename TM::event_queue_t::container_type &vec(const typename TM::event_queue_t &q) {
+      return q.*(&QAccess::c);
+    }
+  };
+  template <class TM> static string get(TM *tm) {
+    string s = "|h";
+    const typename TM::event_queue_t::container_type &v = QAccess<TM>::vec(tm->m_events);
+    for (size_t i = 0; i < v.size(); i++) {
+      int slot = pool::slot_of(v[i]);
+      s += (i ? "," : "") + vh::str(slot >= 0 ? g_slot_ser[slot] : -1) + "." + vh::str(slot + 1) + "." +
+           vh::str(ts_us(v[i]->NextTime()));
+    }
+    s += "|r";
+    vector<int> rm;
+    for (typename std::set<ola::thread::timeout_id>::const_iterator it = tm->m_removed_timeouts.begin();
+         it != tm->m_removed_timeouts.end(); ++it)
+      rm.push_back(pool::slot_of(*it) + 1);
+    std::sort(rm.begin(), rm.end());
+    for (size_t i = 0; i < rm.size(); i++) s += (i ? "," : "") + vh::str(rm[i]);
+    return s;
   }
 };
 
 static string state_s(int64_t next_in) {
   string s = "d";
   for (size_t i = 0; i < g_dels.size(); i++) s += (i ? "," : "") + g_dels[i];
-  s += "|h";
-  const std::vector<TimeoutManager::Event*> &v = QAccess::vec(g_tm->m_events);
-  for (size_t i = 0; i < v.size(); i++) {
-    int slot = pool::slot_of(v[i]);
-    s += (i ? "," : "") + vh::str(slot >= 0 ? g_slot_ser[slot] : -1) + "." + vh::str(slot + 1) + "." +
-         vh::str(ts_us(v[i]->NextTime()));
-  }
-  s += "|r";
-  vector<int> rm;
-  for (std::set<ola::thread::timeout_id>::const_iterator it = g_tm->m_removed_timeouts.begin();
-       it != g_tm->m_removed_timeouts.end(); ++it)
-    rm.push_back(pool::slot_of(*it) + 1);
-  std::sort(rm.begin(), rm.end());
-  for (size_t i = 0; i < rm.size(); i++) s += (i ? "," : "") + vh::str(rm[i]);
+  s += tm_int<t_has_m_events<TimeoutManager>::value && t_has_m_removed_timeouts<TimeoutManager>::value>::get(g_tm);
   s += "|n" + vh::str(next_in);
   s += string("|p") + (g_tm->EventsPending() ? "1" : "0");
   return s;
